@@ -666,6 +666,28 @@ pub fn c13_parse(sk: &Skeleton) -> Leaf {
     let texts: Vec<String> = sk.raw["opts"]["texts"].as_array().map(|a| a.iter().map(|x| x.as_str().unwrap_or("").to_string()).collect()).unwrap_or_default();
     let parsed: Vec<Result<Vec<Transaction>, String>> = texts.iter().map(|t| cgt_core::parser::parse_file(t).map_err(|e| e.to_string())).collect();
     leaf.extra = json!({"results": parsed.iter().map(|r| match r { Ok(v) => json!({"accepted": true, "transactions": v.len()}), Err(e) => json!({"accepted": false, "error": e.lines().take(4).collect::<Vec<_>>().join(" | ")}) }).collect::<Vec<_>>()});
+    let mode1 = sk.opt_str("mode").unwrap_or_default();
+    if texts.len() == 1 && mode1 == "error-line" {
+        // a text whose line `expect_line` (1-based, counting LF, CRLF and CR line ends alike) was corrupted: it must be rejected and
+        // the error must name that line (pest's " --> line:column")
+        let want = sk.opt_i64("expect_line").unwrap_or(0);
+        let (ok, detail) = match &parsed[0] {
+            Ok(v) => (false, format!("accepted with {} transactions", v.len())),
+            Err(e) => {
+                let got = e.find("--> ").and_then(|i| e[i + 4..].split(':').next().and_then(|x| x.trim().parse::<i64>().ok()));
+                (got == Some(want), format!("error names line {got:?}, the corrupted line is {want}: {}", e.lines().take(3).collect::<Vec<_>>().join(" | ")))
+            }
+        };
+        leaf.ob_bool("C13.error-names-the-offending-line", ok, &format!("{detail} in {:?}", texts[0]));
+        return leaf;
+    }
+    if texts.len() == 1 && mode1 == "count" {
+        // every content line of an accepted text yields exactly one transaction (nothing silently skipped)
+        let want = sk.opt_i64("expect_n").unwrap_or(0) as usize;
+        let ok = matches!(&parsed[0], Ok(v) if v.len() == want);
+        leaf.ob_bool("C13.one-transaction-per-content-line", ok, &format!("{want} content lines in {:?}: {}", texts[0], leaf.extra["results"][0]));
+        return leaf;
+    }
     if texts.len() == 2 {
         let mode = sk.opt_str("mode").unwrap_or_else(|| "same".into());
         let ok = match (&parsed[0], &parsed[1]) {
